@@ -156,7 +156,7 @@ static __attribute__((noinline)) void vert_case(unsigned i) {
   }
   unsigned L = idx / 4, rot = idx % 4;
   m.add_n_vertices(12);
-  CH c0 = m.add_cell(vec8(0, 1, 2, 3, 4, 5, 6, 7), chk != 0);   // documented position k = vertex k
+  CH c0 = m.add_cell(vec8(0, 1, 2, 3, 4, 5, 6, 7), false);   // documented position k = vertex k (context; with check: base HB_HEX2_VERTS)
   if (!c0.is_valid()) return;
   // face g of the first hex as listed by its cell: DOC_FACE[g]; the second hex sees it from the other side: reversed
   int opp[4]; for (int j = 0; j < 4; ++j) opp[j] = DOC_FACE[g][3 - j];
@@ -175,9 +175,7 @@ static __attribute__((noinline)) void vert_case(unsigned i) {
   v_assert(s.nV == 12 && s.nE == 20 && s.nF == 11 && s.nC == 2, "C16 add_cell(vertices) next to an existing hex creates exactly the 5 missing faces and 8 missing edges");
   check_no_duplicates(s);
   v_assert(hs_pos_in_cell(s, 1, s.chf[0][g] ^ 1) == (int)L, "C16 add_cell(vertices) reuses the existing face: its opposite halfface sits at the matching position of the new cell");
-  check_hex_all(m, P_CONV | P_ORI | P_HV);
-  int v0[8] = {0, 1, 2, 3, 4, 5, 6, 7};
-  check_hv_matches_input(m, 0, v0);
+  check_hex_all(m, P_CONV | P_ORI | P_HV, 0, 0, 1);   // the new cell (the first one alone: job (1) and the idx >= 24 cases)
   check_hv_matches_input(m, 1, v);
   vert_end();
 }
